@@ -42,6 +42,9 @@ type symbolsEngine struct {
 	defs  map[int]*symDef
 	order []int
 	tab   *linker.Symbols
+	// a lenient handler shared by all "import <id> shared" ops of a case
+	sharedH   *reporter.Handler
+	sharedLog *repLog
 }
 
 func init() { Register("symbols", func() Engine { return &symbolsEngine{} }) }
@@ -51,6 +54,12 @@ func (e *symbolsEngine) Reset() {
 	e.defs = map[int]*symDef{}
 	e.order = nil
 	e.tab = &linker.Symbols{}
+	e.sharedLog = &repLog{}
+	lg := e.sharedLog
+	e.sharedH = reporter.NewHandler(reporter.NewReporter(func(err reporter.ErrorWithPos) error {
+		lg.items = append(lg.items, classify(err.Unwrap().Error()))
+		return nil
+	}, nil))
 }
 
 func parseSymTok(s string) (symTok, bool) {
@@ -369,6 +378,15 @@ func (e *symbolsEngine) Exec(op string) string {
 		if !ok {
 			return "bad-op"
 		}
+		if w[2] == "shared" {
+			before := len(e.sharedLog.items)
+			err := e.tab.Import(d.fd, e.sharedH)
+			r := "ok"
+			if err != nil {
+				r = "err"
+			}
+			return fmt.Sprintf("%s reported=[%s]", r, strings.Join(e.sharedLog.items[before:], " "))
+		}
 		var log repLog
 		lenient := w[2] == "lenient"
 		h := reporter.NewHandler(reporter.NewReporter(func(err reporter.ErrorWithPos) error {
@@ -632,6 +650,9 @@ func (e *symbolsEngine) Gen(r *Rand, tier string) [][]string {
 		// name collision in a new package: packages get registered before the check
 		[]string{"def 1 a - 0 m:a.M", "def 2 a.b - 0 m:a.b.M", "def 3 a - 0 m:a.b", "def 4 c.d - 0 m:c.d.M m:c.d.Q", "def 5 c.d - 0 m:c.d.M", "def 6 c - 0 m:c.d",
 			"import 1 strict", "dump", "import 4 strict", "import 5 strict", "dump", "import 6 strict", "dump", "import 2 strict", "dump", "import 3 strict", "dump"},
+		// one lenient handler reused across imports: a later collision must still fail and not commit
+		[]string{"def 1 d - 0 m:d.M", "def 2 d - 0 m:d.M m:d.OnlyInB", "def 3 d - 0 m:d.M m:d.OnlyInC",
+			"import 1 shared", "dump", "import 2 shared", "dump", "import 3 shared", "dump", "import 3 shared", "dump"},
 		[]string{"def 1 - - 0 m:M e:E v:V", "def 2 - - 0 m:V", "def 3 - - 0 e:F v:M", "import 1 lenient", "import 2 lenient", "dump", "import 3 strict", "dump", "import 2 strict", "dump"},
 	)
 	n := 250
@@ -650,10 +671,14 @@ func (e *symbolsEngine) Gen(r *Rand, tier string) [][]string {
 		}
 		// import order: mostly topological with repeats; dump after each import
 		order := r.permN(nf)
+		sharedCase := i%5 == 4
 		for _, k := range order {
 			mode := "strict"
 			if r.Chance(1, 3) {
 				mode = "lenient"
+			}
+			if sharedCase && r.Chance(3, 4) {
+				mode = "shared"
 			}
 			c = append(c, fmt.Sprintf("import %d %s", k+1, mode), "dump")
 			if r.Chance(1, 4) {
